@@ -27,7 +27,8 @@ _CLI_ASSUME = [
 _RULE = ("scenarios generated while they run (the scripted server reacts to the stream ids the client picks): 1-6 requests, buffered/streamed "
          "bodies around the 65535 window and the 16384 frame size, responses in any order with random HPACK representation choices, "
          "HEADERS/CONTINUATION splits at random bytes, padding, interim responses, trailers; WINDOW_UPDATE and SETTINGS (INITIAL_WINDOW_SIZE, "
-         "MAX_FRAME_SIZE, MAX_CONCURRENT_STREAMS, HEADER_TABLE_SIZE) mid-upload; GOAWAY with various last-stream-ids, RST_STREAM, requests after "
+         "MAX_FRAME_SIZE, MAX_CONCURRENT_STREAMS, HEADER_TABLE_SIZE) mid-upload; GOAWAY with various last-stream-ids incl. the two-step shutdown "
+         "(2^31-1, then lower), RST_STREAM, 0.5 MB downloads that continue onto a stream the client no longer has, requests after "
          "GOAWAY and beyond MAX_CONCURRENT_STREAMS; malformed responses (RFC 7540 8.1.2) and frames (catalogue in harness/cmd/h2v/client_gen.go); "
          "cut connections, write failures, Close and cancel timers in two halves (tick gates); lockstep: after each event the harness waits for "
          "quiescence (hook counters) and records frames, results and gauges; the scripted server keeps the flow-control ledger and decodes every "
